@@ -29,6 +29,7 @@ package datatransfer
 //@     graphsync.dtChannel.lk < channels.blockIndexCache.lk ; graphsync.dtChannel.lk < channels.progressCache.lk ;
 //@     channelmonitor.Monitor.lk < channelmonitor.monitoredChannel.shutdownLk
 
+//@ coverage [stage-codec] {C06}: ChannelID, ChannelStages, ChannelStage, Log
 //@ coverage [lock-discipline-is-complete] {C20}: accessors
 //@     -- every function that touches a guarded / atomic field or a declared mutex, or implements an interface method with a declared
 //@     -- lock effect, is under contract
